@@ -127,6 +127,11 @@ class GanttMatplotlib(Contract):
                         eqs += [T(X[3 * j]) == T(xs[j]), T(X[3 * j + 1]) == T(xs[j + 1]), T(Y[3 * j]) == T(lv), T(Y[3 * j + 1]) == T(lv)]
                         ok = ok and X[3 * j + 2] != X[3 * j + 2] and Y[3 * j + 2] != Y[3 * j + 2]  # nan separators
             out.append(Clause("draws[buffer levels as the reported step function]", And(z3.BoolVal(bool(ok)), *eqs), props=("C17",), kind="equals", bounded=self.bounded))
+        # the time axis shows the whole schedule [0, horizon]; the rows 0 .. 2 * number of rows
+        xl = calls(log, "ax0", "set_xlim")
+        yl = calls(log, "ax0", "set_ylim")
+        okx = len(xl) == 1 and len(xl[0][0]) == 2
+        out.append(Clause("draws[axes show the time line from 0 to the horizon and every row]", And(z3.BoolVal(okx and len(yl) == 1 and tuple(yl[0][0]) == (0, 2 * len(rows))), (T(xl[0][0][0]) == 0) if okx else z3.BoolVal(False), (T(xl[0][0][1]) == T(sol.horizon)) if okx else z3.BoolVal(False)), props=("C17",), kind="equals"))
         out.append(Clause("state[rendering succeeds]", z3.BoolVal(bool(ctx["ok"])), props=("C17",), kind="state"))
         return out
 
